@@ -290,6 +290,11 @@ func c16Check(c *hist.Case, r *evid.Rec) []evid.Disc {
 			}
 		}
 	}
+	for _, ce := range m.Conns {
+		if ce.CID == W && !ce.Success {
+			r.Label("refused-reconnect")
+		}
+	}
 	if uncertain {
 		r.NotAsserted()
 		r.Label("tick-or-reconnect-inside-margin")
@@ -335,6 +340,22 @@ func c16Gen(rt *rapid.T) *hist.Case {
 			E = &e
 		}
 	}
+	// half of the cases run behind the bundled auth ledger, so that a reconnect can also be refused (a refused
+	// connection does not resume the session and must not cancel a pending will)
+	useAuth := rapid.Bool().Draw(rt, "auth-ledger")
+	if useAuth {
+		c.Cfg.Auth = "ledger"
+		c.Cfg.Ledger = []hist.LedgerRule{{Username: "good", Password: "pw", Allow: true}}
+	}
+	defer func() {
+		if useAuth {
+			for i := range c.Actions {
+				if c.Actions[i].Kind == "connect" && c.Actions[i].Username == "" {
+					c.Actions[i].Username, c.Actions[i].Password = "good", "pw"
+				}
+			}
+		}
+	}()
 	// observer
 	c.Actions = append(c.Actions,
 		hist.Action{Kind: "connect", Client: 2, Version: 5, Clean: true, AutoAck: true},
@@ -404,7 +425,11 @@ func c16Gen(rt *rapid.T) *hist.Case {
 		case 3:
 			c.Actions = append(c.Actions, hist.Action{Kind: "tick", Tick: "clients", Offset: pick(rt, "coff", offs)})
 		case 4:
-			c.Actions = append(c.Actions, reconnect("re-clean"))
+			re := reconnect("re-clean")
+			if useAuth && rapid.Bool().Draw(rt, "refused") {
+				re.Username, re.Password = "bad", "pw"
+			}
+			c.Actions = append(c.Actions, re)
 		default:
 			c.Actions = append(c.Actions, hist.Action{Kind: "drop", Client: 0})
 		}
@@ -417,7 +442,7 @@ func c16Gen(rt *rapid.T) *hist.Case {
 }
 
 func TestC16(t *testing.T) {
-	r := evid.New("C16", "rapid: a client (v5 / v3.1.1 / v3.1) connects with a will (topic, QoS 0-2, retain 0/1, will delay absent/0/10/100, session expiry absent/0/5/50/1000, clean start 0/1); its connection ends by DISCONNECT 0x00 (both encodings), DISCONNECT 0x04 (both encodings), network drop, clean close, protocol error (second CONNECT, reserved packet type) or takeover (clean start 0/1) under three harness-owned schedules of the old handler's teardown against the new handler (new-first, old-first, old-during-new via verif schedule points); afterwards 0-4 of: delayed-will housekeeping ticks at virtual times on both sides of every boundary, session-expiry ticks, reconnects (clean 0/1), drops; a final far-future tick and a late subscriber. Oracle at a QoS 2 Retain-As-Published observer: normal DISCONNECT -> never; otherwise exactly once, in the step the connection ends when no delay applies (or the session ends with the connection), not before a tick later than end + min(delay, session expiry) (3 s margin; inside the margin not asserted), by the first tick after it, never if a clean-start-0 connection was established before; topic/QoS/retain flag as requested; retained wills (and only those) reach a later subscriber. Non-trivial = connection ended other than by DISCONNECT 0x00; distinct by (history, will)")
+	r := evid.New("C16", "rapid: a client (v5 / v3.1.1 / v3.1) connects with a will (topic, QoS 0-2, retain 0/1, will delay absent/0/10/100, session expiry absent/0/5/50/1000, clean start 0/1); its connection ends by DISCONNECT 0x00 (both encodings), DISCONNECT 0x04 (both encodings), network drop, clean close, protocol error (second CONNECT, reserved packet type) or takeover (clean start 0/1) under three harness-owned schedules of the old handler's teardown against the new handler (new-first, old-first, old-during-new via verif schedule points); half of the cases behind the bundled auth ledger so that reconnects can be refused (a refused connection cancels nothing); afterwards 0-4 of: delayed-will housekeeping ticks at virtual times on both sides of every boundary, session-expiry ticks, reconnects (clean 0/1), drops; a final far-future tick and a late subscriber. Oracle at a QoS 2 Retain-As-Published observer: normal DISCONNECT -> never; otherwise exactly once, in the step the connection ends when no delay applies (or the session ends with the connection), not before a tick later than end + min(delay, session expiry) (3 s margin; inside the margin not asserted), by the first tick after it, never if a clean-start-0 connection was established before; topic/QoS/retain flag as requested; retained wills (and only those) reach a later subscriber. Non-trivial = connection ended other than by DISCONNECT 0x00; distinct by (history, will)")
 	defer r.Finish(t)
 	if evid.ReplayMode() {
 		evid.Replay(t, r, replayPath(), c16Check)
